@@ -14,7 +14,6 @@ pred H(vt *Model) = len(vt.activeScreen)
 pred Wd(vt *Model) = len(vt.activeScreen[0])
 
 pred GridOK(g [][]cell, h int, w int) = len(g) == h && (forall r in 0..h: len(g[r]) == w)
-     && (forall r1 in 0..h: forall r2 in 0..h: r1 != r2 ==> backing(g[r1]) != backing(g[r2]))
 
 -- InvBase: everything except the upper bound of the cursor column (CHT exceeds it inside its loop and clamps after)
 pred Inv(vt *Model) = InvBase(vt) && vt.cursor.col < Wd(vt)
@@ -53,7 +52,7 @@ pred RegionErased(vt *Model, r0 int, c0 int, r1 int, c1 int, bg vaxis.Color) =
 
 -- parameters as the parser delivers them (C02): inner lists non-empty, values non-negative
 pred ParamsWF(pm [][]int) =
-     forall i in 0..len(pm): (len(pm[i]) >= 1 && (forall j in 0..len(pm[i]): pm[i][j] >= 0))
+     forall i in 0..len(pm): (len(pm[i]) >= 1 && (forall j in 0..len(pm[i]): (0 <= pm[i][j] && pm[i][j] <= 2147483647)))
 
 -- ------------------------------------------------------------------ C0 / ESC
 
@@ -127,6 +126,7 @@ func (vt *Model) decrc()
 func (vt *Model) ris()
   requires inv: Inv(vt)
   ensures C05_inv: Inv(vt)
+  ensures C06_rowsdistinct: RowsDistinct(vt)
   loop 1 invariant grid: -1 <= rangeindex && len(vt.altScreen) == h && len(vt.primaryScreen) == h && h >= 1 && w >= 1
                       && h == old(H(vt)) && w == old(Wd(vt))
                       && (forall r in 0..rangeindex+1: len(vt.altScreen[r]) == w && len(vt.primaryScreen[r]) == w)
@@ -236,6 +236,7 @@ func (vt *Model) cht(ps int)
 
 func (vt *Model) ed(ps int)
   requires inv: Inv(vt)
+  requires rows: RowsDistinct(vt)
   requires ps: ps >= 0
   ensures C05_inv: Inv(vt)
   -- ED (ECMA-48 8.3.39): 0 = cursor to end of screen, 1 = start of screen to cursor (inclusive), 2 = whole screen; cursor does not move
@@ -243,17 +244,17 @@ func (vt *Model) ed(ps int)
   ensures C06_ed1: ps == 1 ==> RegionErased(vt, 0, 0, old(vt.cursor.row), old(vt.cursor.col) + 1, old(vt.cursor.Background))
   ensures C06_ed2: ps == 2 ==> RegionErased(vt, 0, 0, H(vt), 0, old(vt.cursor.Background))
   ensures C06_cursor: vt.cursor.row == old(vt.cursor.row) && vt.cursor.col == old(vt.cursor.col)
-  loop 1 invariant C06_part: ps == 0 && vt.cursor == old(vt.cursor) && vt.cursor.row <= r && r <= H(vt)
+  loop 1 invariant C06_part: RowsDistinct(vt) && ps == 0 && vt.cursor == old(vt.cursor) && vt.cursor.row <= r && r <= H(vt)
   loop 1 invariant C06_erased: RegionErased(vt, vt.cursor.row, vt.cursor.col, r, 0, vt.cursor.Background)
-  loop 2 invariant C06_part: ps == 0 && vt.cursor == old(vt.cursor) && vt.cursor.row <= r && r < H(vt) && 0 <= col && col <= Wd(vt)
+  loop 2 invariant C06_part: RowsDistinct(vt) && ps == 0 && vt.cursor == old(vt.cursor) && vt.cursor.row <= r && r < H(vt) && 0 <= col && col <= Wd(vt)
   loop 2 invariant C06_erased: RegionErased(vt, vt.cursor.row, vt.cursor.col, r, col, vt.cursor.Background)
-  loop 3 invariant C06_part: ps == 1 && vt.cursor == old(vt.cursor) && 0 <= r && r <= vt.cursor.row + 1
+  loop 3 invariant C06_part: RowsDistinct(vt) && ps == 1 && vt.cursor == old(vt.cursor) && 0 <= r && r <= vt.cursor.row + 1
   loop 3 invariant C06_erased: RegionErased(vt, 0, 0, min(r, vt.cursor.row), (r > vt.cursor.row ? vt.cursor.col + 1 : 0), vt.cursor.Background)
-  loop 4 invariant C06_part: ps == 1 && vt.cursor == old(vt.cursor) && 0 <= r && r <= vt.cursor.row && 0 <= col && col <= Wd(vt) && (r == vt.cursor.row ==> col <= vt.cursor.col + 1)
+  loop 4 invariant C06_part: RowsDistinct(vt) && ps == 1 && vt.cursor == old(vt.cursor) && 0 <= r && r <= vt.cursor.row && 0 <= col && col <= Wd(vt) && (r == vt.cursor.row ==> col <= vt.cursor.col + 1)
   loop 4 invariant C06_erased: RegionErased(vt, 0, 0, r, col, vt.cursor.Background)
-  loop 5 invariant C06_part: ps == 2 && vt.cursor == old(vt.cursor) && 0 <= r && r <= H(vt)
+  loop 5 invariant C06_part: RowsDistinct(vt) && ps == 2 && vt.cursor == old(vt.cursor) && 0 <= r && r <= H(vt)
   loop 5 invariant C06_erased: RegionErased(vt, 0, 0, r, 0, vt.cursor.Background)
-  loop 6 invariant C06_part: ps == 2 && vt.cursor == old(vt.cursor) && 0 <= r && r < H(vt) && 0 <= col && col <= Wd(vt)
+  loop 6 invariant C06_part: RowsDistinct(vt) && ps == 2 && vt.cursor == old(vt.cursor) && 0 <= r && r < H(vt) && 0 <= col && col <= Wd(vt)
   loop 6 invariant C06_above: forall r2 in 0..r: forall c in 0..Wd(vt): Erased(vt.activeScreen[r2][c], vt.cursor.Background)
   loop 6 invariant C06_row: forall c in 0..Wd(vt): (c < col ? Erased(vt.activeScreen[r][c], vt.cursor.Background) : vt.activeScreen[r][c] == old(vt.activeScreen[r][c]))
   loop 6 invariant C06_below: forall r2 in r+1..H(vt): forall c in 0..Wd(vt): vt.activeScreen[r2][c] == old(vt.activeScreen[r2][c])
@@ -261,6 +262,7 @@ func (vt *Model) ed(ps int)
 
 func (vt *Model) el(ps int)
   requires inv: Inv(vt)
+  requires rows: RowsDistinct(vt)
   requires ps: ps >= 0
   ensures C05_inv: Inv(vt)
   -- EL (ECMA-48 8.3.41): 0 = cursor to end of line, 1 = start of line to cursor, 2 = whole line; cursor does not move
@@ -268,13 +270,13 @@ func (vt *Model) el(ps int)
                    (ps <= 2 ? RowErased(vt, old(vt.cursor.row), lo, hi, old(vt.cursor.Background)) : RowErased(vt, old(vt.cursor.row), 0, 0, 0)))
   ensures C06_rows: OtherRowsKept(vt, old(vt.cursor.row))
   ensures C06_cursor: vt.cursor.row == old(vt.cursor.row) && vt.cursor.col == old(vt.cursor.col) && !vt.lastCol
-  loop 1 invariant C06_part: r == old(vt.cursor.row) && ps == 0 && old(vt.cursor.col) <= col && col <= Wd(vt) && vt.cursor == old(vt.cursor)
+  loop 1 invariant C06_part: RowsDistinct(vt) && r == old(vt.cursor.row) && ps == 0 && old(vt.cursor.col) <= col && col <= Wd(vt) && vt.cursor == old(vt.cursor)
   loop 1 invariant C06_erased: RowErased(vt, r, old(vt.cursor.col), col, old(vt.cursor.Background))
   loop 1 invariant C06_others: OtherRowsKept(vt, r)
-  loop 2 invariant C06_part: r == old(vt.cursor.row) && ps == 1 && 0 <= col && col <= old(vt.cursor.col) + 1 && vt.cursor == old(vt.cursor)
+  loop 2 invariant C06_part: RowsDistinct(vt) && r == old(vt.cursor.row) && ps == 1 && 0 <= col && col <= old(vt.cursor.col) + 1 && vt.cursor == old(vt.cursor)
   loop 2 invariant C06_erased: RowErased(vt, r, 0, col, old(vt.cursor.Background))
   loop 2 invariant C06_others: OtherRowsKept(vt, r)
-  loop 3 invariant C06_part: r == old(vt.cursor.row) && ps == 2 && 0 <= col && col <= Wd(vt) && vt.cursor == old(vt.cursor)
+  loop 3 invariant C06_part: RowsDistinct(vt) && r == old(vt.cursor.row) && ps == 2 && 0 <= col && col <= Wd(vt) && vt.cursor == old(vt.cursor)
   loop 3 invariant C06_erased: RowErased(vt, r, 0, col, old(vt.cursor.Background))
   loop 3 invariant C06_others: OtherRowsKept(vt, r)
   loop * invariant inv: Inv(vt)
@@ -299,13 +301,14 @@ func (vt *Model) dch(ps int)
 
 func (vt *Model) ech(ps int)
   requires inv: Inv(vt)
+  requires rows: RowsDistinct(vt)
   requires ps: ps >= 0
   ensures C05_inv: Inv(vt)
   -- ECH (ECMA-48 8.3.38): erase n characters from the cursor, not past the end of the line; cursor does not move
   ensures C06_ech: RowErased(vt, old(vt.cursor.row), old(vt.cursor.col), min(old(vt.cursor.col) + (ps == 0 ? 1 : ps), Wd(vt)), old(vt.cursor.Background))
   ensures C06_rows: OtherRowsKept(vt, old(vt.cursor.row))
   ensures C06_cursor: vt.cursor.row == old(vt.cursor.row) && vt.cursor.col == old(vt.cursor.col) && !vt.lastCol
-  loop 1 invariant C06_part: vt.cursor == old(vt.cursor) && ps >= 1 && (old(ps) == 0 ? ps == 1 : ps == old(ps)) && i <= ps
+  loop 1 invariant C06_part: RowsDistinct(vt) && vt.cursor == old(vt.cursor) && ps >= 1 && (old(ps) == 0 ? ps == 1 : ps == old(ps)) && i <= ps
   loop 1 invariant C06_erased: RowErased(vt, vt.cursor.row, vt.cursor.col, vt.cursor.col + i, vt.cursor.Background)
   loop 1 invariant C06_others: OtherRowsKept(vt, vt.cursor.row)
   loop * invariant inv: Inv(vt) && 0 <= i && vt.cursor.col + i <= Wd(vt)
@@ -403,6 +406,10 @@ func (vt *Model) sgr(params [][]int)
   requires pm: ParamsWF(params)
   ensures C05_inv: Inv(vt)
   loop * invariant inv: Inv(vt) && ParamsWF(params) && 0 <= i
+  -- the emulator understands SGR exactly as the library's styled-string parser does (C18): same step function
+  loop 1 invariant C18_wf: len(params) >= 1
+  loop 1 assert C18_step: !SgrStop(params, head(i)) && i == SgrNext(params, head(i)) && vt.cursor.Style == SgrStyle(params, head(i), head(vt.cursor.Style))
+  exit assert C18_stop: i < len(params) ==> SgrStop(params, i)
 
 func (vt *Model) osc(data string)
   requires inv: Inv(vt)
@@ -457,4 +464,5 @@ func (vt *Model) resize(w int, h int)
   loop 3 invariant inv: Inv(vt) && H(vt) == h && Wd(vt) == w && (len(primary) > 0 ==> GridOK(primary, old(H(vt)), old(Wd(vt))))
   ensures C05_inv: Inv(vt)
   ensures C05_size: H(vt) == h && Wd(vt) == w
+  ensures C06_rowsdistinct: RowsDistinct(vt)
 @*/
